@@ -64,7 +64,10 @@ def tables(S):
     """S = 2, 3: canonical tables with S states; S = "2d": the two-state tables on doubled (redundant) automata;
     S = "F4": 512 four-state tables whose states 1, 2 accept finite languages (for pack-offering verification)."""
     if S not in _TABLES:
-        if S == "F4":
+        if S == "tree":
+            import universes.tree as T
+            _TABLES[S] = list(T.UNIVERSES)
+        elif S == "F4":
             # four states: 0 (any transitions), 1 -> {2,3}, 2 -> {3}, 3 dead: states 1 and 2 accept finite languages
             out = []
             for d0 in itertools.product(range(4), repeat=2):
@@ -102,7 +105,16 @@ class Ctx:
 
 
 def truth_terms(table, stats, n, q=0, prefix=""):
+    if hasattr(table, "truth"):  # a non-REG universe (TREE)
+        return Counter(() for _ in table.truth(n))
     return Counter(tuple(w.count("a") for _ in R.PARAMS[stats]) for w in R.words(table, n, q, prefix))
+
+
+def truth_objects(ctx, n, key=()):
+    """Brute-force objects (as strings) of the start class of size n whose statistics all equal the values in key."""
+    if hasattr(ctx.table, "truth"):
+        return list(ctx.table.truth(n))
+    return [w for w in R.words(ctx.table, n) if all(w.count("a") == v for v in key)]
 
 
 def run_search(shape, table, jumps=(), draws=(), prepare=None, mode="auto"):
@@ -113,8 +125,12 @@ def run_search(shape, table, jumps=(), draws=(), prepare=None, mode="auto"):
     ctx.stats = stats
     ctx.shape = shape
     ctx.pack_opts = popts + (("stats:" + stats,) if stats else ())
-    ctx.pack = R.mkpack(ctx.pack_opts)
-    ctx.start = R.start_class(table, stats)
+    if hasattr(table, "truth"):
+        ctx.pack = table.pack(ctx.pack_opts)
+        ctx.start = table.start(stats)
+    else:
+        ctx.pack = R.mkpack(ctx.pack_opts)
+        ctx.start = R.start_class(table, stats)
     ctx.clock = Clock(jumps)
     ctx.tape = Tape(draws)
     ctx.smallest = smallest
@@ -265,6 +281,9 @@ def std_groups(tier, dbs=("base", "forget", "forest"), opts=None, sched=True, rn
             add("rng-base-two-S2-t%d" % lo, "check_rng", {"db": "base", "opt": "two", "S": 2, "trange": [lo, min(n2, lo + 16)]}, weight=16 * 30)
         add("levels-base-plain-S2", "check_opt", {"db": "base", "opt": "plain", "S": 2, "mode": "levels", "levels": 3}, expect=n2, weight=n2)
         add("levels-forest-plain-S2", "check_opt", {"db": "forest", "opt": "plain", "S": 2, "mode": "levels", "levels": 3}, expect=n2, weight=n2)
+    # TREE universe: product rules with repeated children
+    for db in dbs:
+        add("tree-%s" % db, "check_opt", {"db": db, "opt": "plain", "S": "tree"}, expect=4, weight=40)
     if S3 and tier == "thorough":
         n3 = len(tables(3))
         for db in dbs:
